@@ -1137,6 +1137,16 @@ def _replay_runload(cex, tmp):
         [emg3d.TxElectricDipole((0, 0, 0, 0, 0))],
         [emg3d.RxElectricPoint((100, 50, 0, 0, 0))], [1.0],
         data=np.ones((1, 1, 1))+0j, noise_floor=1e-15, relative_error=0.05)
+    # observed data = response of model 1, so that the misfit depends on
+    # the model (0 for model 1)
+    s0 = emg3d.Simulation(survey, emg3d.Model(grid, 1.0), gridding='same',
+                          max_workers=1, verb=-1, tqdm_opts=False)
+    s0.compute(observed=True, add_noise=False)
+    survey = emg3d.Survey(
+        [emg3d.TxElectricDipole((0, 0, 0, 0, 0))],
+        [emg3d.RxElectricPoint((100, 50, 0, 0, 0))], [1.0],
+        data=s0.data.observed.data.copy(), noise_floor=1e-15,
+        relative_error=0.05)
     emg3d.save(os.path.join(tmp, 'survey.h5'), survey=survey, verb=0)
     emg3d.save(os.path.join(tmp, 'model.h5'),
                model=emg3d.Model(grid, 1.0), verb=0)
@@ -1161,7 +1171,7 @@ def _replay_runload(cex, tmp):
                                tqdm_opts=False)
         want = float(sim.misfit)
         got = float(np.asarray(out['misfit']))
-        bad = not np.isclose(got, want, rtol=1e-4, atol=0)
+        bad = not np.isclose(got, want, rtol=1e-3, atol=1e-9*abs(want))
         return bad, (f"real CLI --load --clean with a new model: misfit "
                      f"{got:.6e}, API with that model {want:.6e}")
     except Exception as e:      # noqa
